@@ -453,6 +453,8 @@ class TT():
 
                 cores.append(tnf.pad(self.cores[i], pad1)+tnf.pad(othr, pad2))
 
+            # a scalar of a wider type (complex on a real TT, ...) promotes the first core: all cores share that dtype
+            cores = [c.to(cores[0].dtype) for c in cores]
             result = TT(cores)
         elif isinstance(other, TT):
             # second term is TT object
@@ -586,6 +588,7 @@ class TT():
                     if i == 0:
                         othr = -othr
                 cores.append(tnf.pad(self.cores[i], pad1)+tnf.pad(othr, pad2))
+            cores = [c.to(cores[0].dtype) for c in cores]
             result = TT(cores)
 
         elif isinstance(other, TT):
@@ -771,7 +774,8 @@ class TT():
         elif (np.isscalar(other) and not isinstance(other, str)) or (isinstance(other, tn.Tensor) and tn.numel(other) == 1):
             if other != 0:
                 cores_new = [c+0 for c in self.cores]
-                cores_new[0] *= other
+                cores_new[0] = cores_new[0] * other
+                cores_new = [c.to(cores_new[0].dtype) for c in cores_new]
                 result = TT(cores_new)
             else:
                 result = TT([tn.zeros((1, self.M[i], self.N[i], 1) if self.is_ttm else (
@@ -926,6 +930,7 @@ class TT():
             # divide by a scalar
             cores_new = self.cores.copy()
             cores_new[0] = cores_new[0] / other
+            cores_new = [c.to(cores_new[0].dtype) for c in cores_new]
             result = TT(cores_new)
         elif isinstance(other, TT):
             if self.__is_ttm != other.is_ttm:
